@@ -107,6 +107,12 @@ def run(ctx):
         raise InfraError("spec-level counterexample in Conflicts/%s: %s" % (cfg, mc.summary()))
     tlc.require_coverage(mc, ACTIONS)
     ctx.log("TLC %s: %d distinct / %d generated, %.0fs" % (cfg, mc.distinct, mc.generated, mc.wall))
+    deep = None
+    if not ctx.quick:
+        deep = tlc.run(ctx, "Conflicts", "Conflicts_mc_deep.cfg", workers=workers, timeout=7200, heap="12g", name="tlc_deep")
+        if not deep.ok:
+            raise InfraError("spec-level counterexample in Conflicts_mc_deep: %s" % deep.summary())
+        ctx.log("TLC Conflicts_mc_deep.cfg: %d distinct / %d generated, %.0fs" % (deep.distinct, deep.generated, deep.wall))
     # documented expectation: "exclusive changes run alone" is NOT an invariant of the transcribed code
     alone = tlc.run(ctx, "Conflicts", "Conflicts_mc_alone.cfg", workers=workers, timeout=1800, name="tlc_alone")
     if alone.kind != "invariant" or alone.name != "ExclusiveAlone":
@@ -196,6 +202,7 @@ def run(ctx):
         level="model_checking",
         coverage={
             "states": mc.distinct, "transitions": mc.generated, "tlc_wall_s": round(mc.wall, 1), "tlc_config": cfg,
+            "tlc_deep_states": deep.distinct if deep else None, "tlc_deep_transitions": deep.generated if deep else None,
             "action_coverage": tlc.coverage_summary(mc), "invariants": INVS,
             "traces_validated_against_impl": totals["traces"],
             "systematic_request_pairs": totals["pairs"],
